@@ -2,7 +2,7 @@
    only; every proof is `exact`.  The percent-quoting table is [gen_to_quote], regenerated from
    /repo/gffutils/parser.py on every run. *)
 From GV Require Import Base.Prelude Base.PyStr Base.Utf8 Model.DB Model.Parser Model.Grammar Gen.GenConst
-  Proofs.GenConstEquiv Proofs.C08Proofs Proofs.C08Round Proofs.C08Gtf Proofs.C07Proofs Proofs.C08Line.
+  Proofs.GenConstEquiv Proofs.C08Proofs Proofs.C08Round Proofs.C08Gtf Proofs.C07Proofs Proofs.C08Line Proofs.C08Whole.
 Open Scope N_scope.
 
 (* percent-encoding is inverted by unquote for EVERY string over all code points *)
@@ -41,6 +41,18 @@ Theorem C08_single_line : forall f, gff3_style (f_dialect f) = true -> mapping_o
   forall c, In c (feature_str gen_to_quote f) -> c <> 10 /\ c <> 13.
 Proof. rewrite gen_to_quote_eq. exact l_single_line. Qed.
 Print Assumptions C08_single_line.
+
+(* the WHOLE printed line parses back to the Feature it came from - the eight columns, '.' or integer coordinates of any
+   size and sign, the attribute mapping and the extra columns - for every GFF3-style dialect with keep_order and
+   sort_attribute_values off, whatever unicode the attribute values hold (columns 1-8 and the extra columns free of
+   tab / LF / CR, which is all the printer asks of them) *)
+Theorem C08_line_roundtrip : forall isw f, gff3_style (f_dialect f) = true -> mapping_ok (f_attrs f) = true ->
+  f_keep_order f = false -> f_sort_values f = false ->
+  (forall col, In col ([f_seqid f; f_source f; f_ftype f; f_score f; f_strand f; f_frame f] ++ f_extra f) ->
+     forall c, In c col -> ~ ctl c) ->
+  feature_from_line isw (feature_str gen_to_quote f) (Some (f_dialect f)) false = Ok f.
+Proof. rewrite gen_to_quote_eq. exact l_line_roundtrip. Qed.
+Print Assumptions C08_line_roundtrip.
 
 (* totality of the supplied-dialect path: no string makes it raise (for a dialect whose
    separators are non-empty); the inference path [split_infer] is a total function whose only
